@@ -25,26 +25,30 @@ type Config struct {
 	MaxPreempt   int
 	MapOrderAny  bool
 	DeadlockOK   bool
-	NoopPkgs     []string
+	// time.AfterFunc on the virtual clock (fires when its deadline falls due) instead of
+	// the coarse "may fire at any time" model
+	VirtualAfterFunc bool
+	NoopPkgs         []string
 }
 
 // HarnessSpec describes one entry function in harness.json.
 type HarnessSpec struct {
-	Name        string                    `json:"name"`
-	Pkg         string                    `json:"pkg"`
-	Bounds      map[string]map[string]int `json:"bounds"` // tier -> name -> value
-	Covers      []string                  `json:"covers"`
-	MaxPreempt  map[string]int            `json:"maxPreempt"`
-	MapOrderAny bool                      `json:"mapOrderAny"`
-	DeadlockOK  bool                      `json:"deadlockOK"`
-	Tiers       []string                  `json:"tiers"` // empty = all
-	MaxPaths    int                       `json:"maxPaths"`
-	MaxStr      int                       `json:"maxStr"`
-	Doc         string                    `json:"doc"`
-	Solver      string                    `json:"solver"`
-	Expect      string                    `json:"expect"` // "" | "violation" (self-test harnesses)
-	Known       []KnownSpec               `json:"known"`
-	Replace     map[string]string         `json:"replace"` // per-harness additions to the suite's replacement table
+	Name             string                    `json:"name"`
+	Pkg              string                    `json:"pkg"`
+	Bounds           map[string]map[string]int `json:"bounds"` // tier -> name -> value
+	Covers           []string                  `json:"covers"`
+	MaxPreempt       map[string]int            `json:"maxPreempt"`
+	MapOrderAny      bool                      `json:"mapOrderAny"`
+	DeadlockOK       bool                      `json:"deadlockOK"`
+	VirtualAfterFunc bool                      `json:"virtualAfterFunc"`
+	Tiers            []string                  `json:"tiers"` // empty = all
+	MaxPaths         int                       `json:"maxPaths"`
+	MaxStr           int                       `json:"maxStr"`
+	Doc              string                    `json:"doc"`
+	Solver           string                    `json:"solver"`
+	Expect           string                    `json:"expect"` // "" | "violation" (self-test harnesses)
+	Known            []KnownSpec               `json:"known"`
+	Replace          map[string]string         `json:"replace"` // per-harness additions to the suite's replacement table
 }
 
 // KnownSpec links a harness assertion label to a known finding id.
@@ -64,7 +68,7 @@ type SuiteSpec struct {
 	Replace      map[string]string `json:"replace"` // callee -> "importpath.Func" ("" = no-op)
 	Harnesses    []HarnessSpec     `json:"harnesses"`
 	NoopTypes    []string          `json:"noopTypes"` // "import/path.Type": every method is a no-op (results zero; a result of an interface type the receiver implements is the receiver)
-	Globals      map[string]string `json:"globals"` // "import/path.Var" -> "zero": never initialised from the package initialiser
+	Globals      map[string]string `json:"globals"`   // "import/path.Var" -> "zero": never initialised from the package initialiser
 	Assumptions  []string          `json:"assumptions"`
 	Stubs        []string          `json:"stubs"`
 }
@@ -83,11 +87,11 @@ type Program struct {
 	rtypePtr      types.Type
 	// DroppedOverlays: harness files that did not type-check against the current tree (real path -> first error)
 	DroppedOverlays map[string]string
-	mu            sync.Mutex
-	RepoDir       string
-	VerifDir      string
-	Files         map[string]string // overlay virtual path -> real file
-	KnownLabels   map[string]bool   // "harness|label" of listed known findings (exploration continues past them)
+	mu              sync.Mutex
+	RepoDir         string
+	VerifDir        string
+	Files           map[string]string // overlay virtual path -> real file
+	KnownLabels     map[string]bool   // "harness|label" of listed known findings (exploration continues past them)
 }
 
 // PrepareModfile writes build/repo_alt.mod(.sum) with the quic-go stub replacement.
